@@ -999,10 +999,19 @@ impl System for MemSystem
             {
                 let code = i.run_line(line);
                 codes.push(code);
+                // `true <tag>` / `false <tag>` also talk: what a command writes to its standard streams is
+                // passed on by ruler and must not change what it does
+                let w: Vec<&str> = line.split_whitespace().collect();
+                let (so, se) = match w.first().cloned()
+                {
+                    Some("true") if w.len() > 1 => (format!("note: {}\n", w[1]), String::new()),
+                    Some("false") if w.len() > 1 => (String::new(), format!("error: {} \u{fffd}\n", w[1])),
+                    _ => (String::new(), String::new()),
+                };
                 out.push(Ok(CommandLineOutput
                 {
-                    out: String::new(),
-                    err: String::new(),
+                    out: so,
+                    err: se,
                     code: if code == -9 { None } else { Some(code) },
                     success: code == 0,
                 }));
